@@ -100,6 +100,42 @@ def orders_oracle(ctx, sp, o):
                           trigger={'what': sorted(bad)[0]})
 
 
+def orders_oracle_split(ctx, sp, o):
+    """split optimisation: an order has one execution per interval in which it covers a step; the special output lists every one of them,
+    and their payments add up to the cash flow of the book"""
+    s = o.get('split') if o.get('status') == 'ok' else None
+    if not isinstance(s, dict) or s.get('solve') != 'optimal' or not s.get('out'):
+        return
+    from props.C14 import interval_ranges
+    g = sp['grid']
+    tz = g.get('tz')
+    pts = M.grid_pts(g)
+    ivs = interval_ranges(sp, sp['opts']['split'])
+    for a in sp['assets']:
+        if a['kind'] != 'OrderBook':
+            continue
+        ctx.cov['impl_oracle_evaluations'] += 1
+        od = a['orders']
+        want = {}
+        for i, (s0, e0) in enumerate(zip(od['start'], od['end'])):
+            lo, hi = M.inst(s0, tz), M.inst(e0, tz)
+            want[i] = sum(1 for st in ivs if any(lo <= pts[t] < hi for t in st))
+        got, pay = {}, 0.0
+        for asset, var, name, value, cost in s['out']['special']:
+            if asset == a['name']:
+                got[int(float(name))] = got.get(int(float(name)), 0) + 1
+                pay += cost or 0.0
+        bad = {}
+        if {k: v for k, v in want.items() if v} != got:
+            bad['executions listed per order (one per interval the order touches)'] = {'listed': got, 'expected': {k: v for k, v in want.items() if v}}
+        dcf = s['out']['DCF'].get(a['name'])
+        if dcf is not None and abs(sum(v or 0.0 for v in dcf) + pay) > 1e-6 * (1 + abs(pay)):
+            bad['payments of the listed executions vs cash flow of the book'] = [pay, -sum(v or 0.0 for v in dcf)]
+        if bad:
+            ctx.violation('impl-violation', {'spec': sp, 'mode': 'split', 'asset': a['name'], 'observed': bad,
+                                             'expected': 'the special output explains what the book delivers and pays'}, trigger={'what': 'split: ' + sorted(bad)[0][:30]})
+
+
 def run(ctx):
     if not ctx.proof_gate(THEOREMS, ['OrderBook.vo']):
         return
@@ -145,7 +181,15 @@ def run(ctx):
             if a['kind'] == 'OrderBook':
                 a['orders_as_frame'] = True
     specs += frm
+    # split optimisation with orders delivering across interval borders
+    spl = gen.gen_many(ctx.seed, n // 3, dict(CFG, freqs=['h'], tzs=[None], T=(6, 10), p_unaligned_end=0.0, p_full_exec=0.2, kinds={'OrderBook': 4, 'SimpleContract': 2, 'Storage': 1}), 'c20sp_')
+    for sp in spl:
+        sp['opts']['split'] = '3h'
     specs = ctx.specs(specs)
+    spl = [sp for sp in ctx.specs(spl) if sp.get('opts', {}).get('split')]
+    for sp, o in zip(spl, C.run_impl('portfolio', spl) if spl else []):
+        ctx.count('split status:' + str((o.get('split') or {}).get('solve') if isinstance(o.get('split'), dict) else o.get('status')))
+        orders_oracle_split(ctx, sp, o)
     res = C.run_impl('reference', specs)
     parts = C.run_impl('assets', specs)
     for sp, o in zip(specs, res):
